@@ -63,6 +63,7 @@ type Config struct {
 	GraceTTL      time.Duration `json:"grace_ttl"`
 	TokenTTL      time.Duration `json:"token_ttl"`
 	TokenChars    string        `json:"token_chars,omitempty"`
+	AlsoCognito   bool          `json:"also_cognito,omitempty"` // the deployment configures an Amazon Cognito provider next to the one in use
 	AuthLifetime  time.Duration `json:"auth_lifetime"`
 	GroupCacheTTL time.Duration `json:"group_cache_ttl"`
 	RefreshTTL    time.Duration `json:"refresh_ttl"`
@@ -530,6 +531,14 @@ func (w *World) BootAuth() error {
 		pcfg.GoogleProviderConfig = auth.GoogleProviderConfig{Credentials: creds, Impersonate: "admin@example.com"}
 	}
 	ac.ProviderConfigs[cfg.Slug] = pcfg
+	if cfg.AlsoCognito {
+		// built in the same process by NewAuthenticatorMux, never asked anything in these worlds
+		ac.ProviderConfigs["cognito"] = auth.ProviderConfig{ProviderType: "cognito", ProviderSlug: "cognito",
+			ClientConfig: auth.ClientConfig{ID: IdPClientID, Secret: IdPClientSecret},
+			GroupCacheConfig: auth.GroupCacheConfig{CacheIntervalConfig: auth.CacheIntervalConfig{Provider: cfg.GroupCacheTTL, Refresh: cfg.RefreshTTL}},
+			AmazonCognitoProviderConfig: auth.AmazonCognitoProviderConfig{OrgURL: "cognito.sim", UserPoolID: "pool-sim", Region: "us-east-1",
+				Credentials: auth.CognitoCredentials{ID: "cognito-id", Secret: "cognito-secret"}}}
+	}
 	ac.ClientConfigs["proxy"] = auth.ClientConfig{ID: ProxyClientID, Secret: ProxyClientSecret}
 	scheme := "http"
 	if cfg.Secure {
